@@ -156,9 +156,16 @@ var idle int64 = 1
 // (no goroutine is waiting inside a simulator seam, so nothing the simulator could do
 // would unblock it) or the synctest/mutex artefact (some goroutine waits for the
 // simulator while another is blocked on a sync.Mutex it holds).
+// artefactSites are the places where the driver holds a mutex across a network round trip
+// and a second goroutine may therefore wait for that mutex while the first waits for the
+// simulator: testing/synctest does not count the waiter as durably blocked, so the bubble
+// cannot quiesce although nothing is wrong (DESIGN 8.3).
+var artefactSites = []string{"gocql.(*nextIter).fetch", "gocql.(*ringDescriber).", "gocql.(*schemaDescriber).", "gocql.(*Session).KeyspaceMetadata"}
+
 func classifyStall(dump string) string {
 	waitingOnSim := false
 	mutexWaiters := 0
+	unknownSiteWaiters := 0
 	busy := false
 	for _, blk := range strings.Split(dump, "\n\n") {
 		nl := strings.IndexByte(blk, '\n')
@@ -171,6 +178,15 @@ func classifyStall(dump string) string {
 		}
 		if strings.Contains(head, "sync.Mutex.Lock") || strings.Contains(head, "sync.RWMutex") {
 			mutexWaiters++
+			known := false
+			for _, site := range artefactSites {
+				if strings.Contains(blk, site) {
+					known = true
+				}
+			}
+			if !known {
+				unknownSiteWaiters++
+			}
 			continue
 		}
 		if (strings.Contains(head, "[running") || strings.Contains(head, "[runnable")) && strings.Contains(blk, "github.com/gocql/gocql.") {
@@ -182,7 +198,10 @@ func classifyStall(dump string) string {
 			waitingOnSim = true
 		}
 	}
-	if mutexWaiters > 0 && !waitingOnSim {
+	if mutexWaiters > 0 && (!waitingOnSim || unknownSiteWaiters > 0) {
+		// nobody left who could ever release the lock, or a goroutine waits for a lock at a
+		// place that is not one of the known "lock held across a round trip" sites (a
+		// goroutine that takes a lock it already holds looks exactly like this)
 		return "driver-lock-deadlock"
 	}
 	if mutexWaiters > 0 {
